@@ -4,6 +4,8 @@ C10 — Callback receivers see every item once, in order, then one endmarker.
 import ExecnetVerif.Proofs.Net.Wire
 import ExecnetVerif.Proofs.Net.Got
 import ExecnetVerif.Proofs.Net.Cb
+import ExecnetVerif.Props.NetFine
+import ExecnetVerif.Props.NetGranularity
 namespace ExecnetVerif
 open Net
 
